@@ -23,12 +23,12 @@ func c18(args []string) {
 	c.Assume("with two upstream processes the arrival order is whatever the recorder saw; it is not predicted")
 	rng := c.Rand("c18")
 	type job struct {
-		n, b   int
-		sep    string
-		mods   string
-		fanin  bool
-		max    int
-		cfg    Cfg
+		n, b  int
+		sep   string
+		mods  string
+		fanin bool
+		max   int
+		cfg   Cfg
 	}
 	var jobs []*job
 	bs := []int{1, 3}
@@ -228,10 +228,10 @@ func c18(args []string) {
 // in-ports; each placeholder must expand to the members of its own sub-stream.
 func c18two(c *chk.Ctx) {
 	type job struct {
-		na, nb     int
-		sa, sb     string
-		b          int
-		cfg        Cfg
+		na, nb int
+		sa, sb string
+		b      int
+		cfg    Cfg
 	}
 	rng := c.Rand("c18two")
 	var jobs []*job
